@@ -313,6 +313,24 @@ def templates(w):
                     pos += s
                 out.append(('compose', tuple(sl2)))
     out.append(('compose', ((a, 0, w),)))
+    # slices of one source that are adjacent in the result but NOT in the source (no merge may happen), and the same slice twice
+    for w2 in WIDTHS:
+        if w2 >= w and w >= 16:
+            a2 = ids(w2)[0]
+            h = w // 2
+            if w2 >= w + h:
+                out.append(('compose', ((('slice', a2, 0, h), 0, h), (('slice', a2, w, w + h), h, w))))
+            out.append(('compose', ((('slice', a2, 0, h), 0, h), (('slice', a2, 0, h), h, w))))
+            out.append(('compose', ((('slice', a2, h, w), 0, h), (('slice', a2, 0, h), h, w))))
+            if w2 > w:
+                out.append(('compose', ((('slice', a2, 0, h), 0, h), (('slice', a2, h + 1, w + 1), h, w))))
+    # memory reads of every width whose address is rewritten by the simplifier
+    if w >= 8:
+        p, q = ('id', 'p32', 32), ('id', 'q32', 32)
+        for ad in (('op', '+', (p, ('int', 32, 0))), ('op', '+', (p, ('int', 32, 4), ('int', 32, 4))), ('op', '+', (q, p, ('op', '-', (q,)))),
+                   ('op', '^', (p, ('int', 32, 0))), ('slice', ('compose', ((p, 0, 32), (q, 32, 64))), 0, 32)):
+            out.append(('mem', ad, w))
+            out.append(('op', '+', (('mem', ad, w), a)))
     return out
 
 def random_tree(rng, w, d, small=True):
